@@ -7,7 +7,7 @@
    "exactly the documented repairs" hold for every data set that yields (feat, ali, ref) triples
    (suppress_alis = False, tokens_only = False: [plain_yield]) and either adds no sos/eos or is not
    asked to fix ([clean_writes]).  What happens outside those hypotheses is stated too, as
-   [_refuted] witnesses (F9, F11, F12, F13, F14 of notes/C12_report.md) and a characterisation (F10). *)
+   [_refuted] witnesses (F9, F11, F13, F14 of notes/C12_report.md; F12 is repaired in /repo) and a characterisation (F10). *)
 From Coq Require Import List ZArith Bool.
 From PV Require Import C12.Model C12.Spec C12.Proofs C12.Proofs2 C12.Proofs3 C12.Proofs4.
 Import ListNotations.
@@ -128,14 +128,6 @@ Theorem c12_tokens_only_refuted :
 Proof. exact tokens_only_refuted. Qed.
 Print Assumptions c12_tokens_only_refuted.
 
-(* F12 - get-torch-spect-data-dir-info --fix 0 *)
-Theorem c12_cli_fix0_refuted :
-  exists d p, ~ WellFormed d /\ WellFormed (repair (Some 0) d) /\
-    cli_info false (Some 0) d = (d, inr p) /\
-    validate cfg_plain (FInt 0) d = (repair (Some 0) d, None).
-Proof. exact cli_fix0_refuted. Qed.
-Print Assumptions c12_cli_fix0_refuted.
-
 (* F13, F14 - two reported statistics that are not the recount *)
 Theorem c12_info_total_tokens_refuted :
   exists d p, WellFormed d /\ cli_info true None d = (d, inr p) /\
@@ -151,7 +143,7 @@ Print Assumptions c12_info_rcount_refuted.
 
 (* ---- the second entry point: get-torch-spect-data-dir-info [--strict | --fix N] ---- *)
 
-(* with --strict or --fix N, N <> 0: the same files afterwards and the same raise/return as
+(* with --strict or --fix N (any N): the same files afterwards and the same raise/return as
    validate_spect_data_set on a plain data set (so every theorem above transfers) *)
 Theorem c12_cli_like_validate : forall strict fx d,
   cli_validates strict fx = true -> classes_nonneg d ->
@@ -164,7 +156,20 @@ Theorem c12_cli_like_validate : forall strict fx d,
 Proof. exact cli_like_validate. Qed.
 Print Assumptions c12_cli_like_validate.
 
-(* without a flag - and, as coded, with --fix 0 (F12) - nothing is ever written *)
+(* every --fix N validates, N = 0 included (F12, repaired in /repo 0bbdd7f), so the theorem above covers it *)
+Theorem c12_cli_fix_always_validates : forall strict k, cli_validates strict (Some k) = true.
+Proof. exact cli_fix_validates. Qed.
+Print Assumptions c12_cli_fix_always_validates.
+
+(* the former F12 input: --fix 0 now repairs what needs no cropping, as validate(ds, 0) does *)
+Theorem c12_cli_fix0_repairs :
+  exists p, ~ WellFormed w_f12_dir /\ WellFormed (repair (Some 0) w_f12_dir) /\
+    cli_info false (Some 0) w_f12_dir = (repair (Some 0) w_f12_dir, inr p) /\
+    validate cfg_plain (FInt 0) w_f12_dir = (repair (Some 0) w_f12_dir, None).
+Proof. exact cli_fix0_repairs. Qed.
+Print Assumptions c12_cli_fix0_repairs.
+
+(* without any flag nothing is ever written *)
 Theorem c12_cli_unvalidated_never_writes : forall strict fx d,
   cli_validates strict fx = false -> fst (cli_info strict fx d) = d.
 Proof. exact cli_unvalidated_never_writes. Qed.
